@@ -926,6 +926,9 @@ func RegisterAPI(apiPkg string) {
 		}
 		return nil
 	}
+	O[p+"VerifRandSource"] = func(fr *frame, args []value) value {
+		return iface{t: types.NewPointer(types.Typ[types.Int]), v: native{&symRand{}}}
+	}
 	O[p+"VerifSteps"] = func(fr *frame, args []value) value { return fr.i.steps }
 	O[p+"VerifIsSymbolic"] = func(fr *frame, args []value) value { return true }
 	O[p+"VerifPanics"] = func(fr *frame, args []value) value {
@@ -1059,5 +1062,49 @@ func init() {
 			r = strConcat(r, args[0])
 		}
 		return r
+	}
+}
+
+// math/rand: "for any seed" becomes "for every choice" (bounded number of non-default choices per path).
+type symRand struct{}
+
+func init() {
+	I := intrinsics
+	I["math/rand.NewSource"] = func(fr *frame, args []value) value {
+		return iface{t: types.NewPointer(types.Typ[types.Int]), v: native{&symRand{}}}
+	}
+	I["math/rand.New"] = func(fr *frame, args []value) value { return native{&symRand{}} }
+	randChoose := func(fr *frame, n int) int {
+		if n <= 1 || fr.i.randBudget <= 0 {
+			return 0
+		}
+		c := fr.i.choose(n, "rand")
+		if c != 0 {
+			fr.i.randBudget--
+		}
+		return c
+	}
+	// every draw is recorded (in order) so that a scripted rand.Source can replay it natively
+	record := func(fr *frame, kind string, v, n int) {
+		fr.i.ndVals[fmt.Sprintf("rand_%d", fr.i.randDraws)] = fmt.Sprintf("%s:%d:%d", kind, v, n)
+		fr.i.randDraws++
+	}
+	I["(*math/rand.Rand).Intn"] = func(fr *frame, args []value) value {
+		n := int(asInt64(args[1]))
+		if n <= 0 {
+			panic(targetPanic{iface{t: types.Typ[types.String], v: "invalid argument to Intn"}})
+		}
+		c := randChoose(fr, n)
+		record(fr, "i", c, n)
+		return c
+	}
+	I["(*math/rand.Rand).Shuffle"] = func(fr *frame, args []value) value {
+		n := int(asInt64(args[1]))
+		for k := n - 1; k > 0; k-- {
+			j := k - randChoose(fr, k+1) // choice 0 keeps position k (identity permutation by default)
+			record(fr, "s", j, k+1)
+			call(fr.i, fr, 0, args[2], []value{k, j})
+		}
+		return nil
 	}
 }
